@@ -449,6 +449,10 @@ def yaml_dump(v):
     return yaml.safe_dump(v, default_flow_style=True).strip()
 
 
+# spellings of the front-matter block accepted by the Markdown front-matter rule: (opening line, closing line, CRLF line ends)
+FM_SPELLINGS = [("---\n", "---\n", False), ("--- \n", "---\n", False), ("----\n", "----\n", False), ("---\n", "---  \n", False), ("---\n", "---\n", True)]
+
+
 class EffectSystem(System):
     name = "effect"
     chunk = 1
@@ -456,17 +460,21 @@ class EffectSystem(System):
                    "equals the doctree under the same value in front matter; and both differ from the default (vacuity guard)")
 
     def bounds(self):
-        return {"cases": len(EFFECT)}
+        return {"cases": len(EFFECT), "front_matter_spellings": len(FM_SPELLINGS)}
 
     def rule(self):
-        return "one case = (field, value, document); non-trivial = the setting changes the doctree relative to the default"
+        return "one case = (field, value, document, spelling of the front-matter delimiters); non-trivial = the setting changes the doctree relative to the default"
 
     def cases(self):
         for i in range(len(EFFECT)):
-            yield i
+            for v in range(len(FM_SPELLINGS)):
+                yield [i, v]
 
-    def run(self, i):
+    def run(self, case):
         from docutils import nodes
+
+        i, v = case
+        opener, closer, crlf = FM_SPELLINGS[v]
 
         from ..drivers import docutils_doctree
 
@@ -480,8 +488,10 @@ class EffectSystem(System):
                 n.parent.remove(n)
             return re.sub(r' line="\d+"', "", doc.pformat())
 
-        fm_global = f"---\n{fm_extra}other: 1\n---\n"
-        fm_local = "---\n" + fm_extra + "other: 1\n" + yaml.safe_dump({"myst": {field: value}}, default_flow_style=False) + "---\n"
+        fm_global = f"{opener}{fm_extra}other: 1\n{closer}"
+        fm_local = opener + fm_extra + "other: 1\n" + yaml.safe_dump({"myst": {field: value}}, default_flow_style=False) + closer
+        if crlf:
+            fm_global, fm_local, body = (x.replace("\n", "\r\n") for x in (fm_global, fm_local, body))
         d_glob, w_glob = docutils_doctree(fm_global + body, {**base, f"myst_{field}": copy.deepcopy(value)})
         d_fm, w_fm = docutils_doctree(fm_local + body, dict(base))
         d_def, w_def = docutils_doctree(fm_global + body, dict(base))
